@@ -201,7 +201,7 @@ PROPS["C04"] = {
     "rule": ("case = (0-6 sources with keys of <= 3 symbols over a 4-symbol alphabet incl. the empty key, merge option, dupsort "
              "option, observation path). Non-trivial: some key occurs in >= 2 sources, or a source is empty, or the empty key is "
              "present. distinct by FNV-1a of the serialised case."),
-    "expect_tags": ["key_in_2plus_sources", "fold_depth_3plus", "empty_source", "empty_key", "user_defined_source", "merge_0",
+    "expect_tags": ["key_in_2plus_sources", "fold_depth_3plus", "empty_source", "empty_key", "user_defined_source", "source_yielding_a_key_twice", "merge_0",
                     "merge_1", "merge_2", "merge_callback_failed", "merge_callback_failed_without_storing",
                     "merge_callback_failed_on_later_fold_of_a_key", "dupsort_1", "dupsort_2", "path_1", "path_2", "no_sources"],
     "assumptions": TABLE_ASSUME,
